@@ -20,3 +20,27 @@ def nontrivial_default(case, reply):
 
 
 oracle = G.oracle
+
+
+def modelgen_cases(rng, cmd, n, tag, sizes=(0, 1, 2, 3, 5, 8, 13)):
+    """members of a theorem's text family generated and rendered BY THE MODEL (`proggen` / `fullgen`), then assembled by the
+    real code: the tie compares the two answers on exactly the texts the theorem is about.  `nodes=1`: the model's own walk
+    gave one node per statement."""
+    import re
+    reqs = [f"{cmd} {rng.randrange(1 << 40)} {rng.choice(sizes)}" for _ in range(n)]
+    outs = C.run_lines(C.MODEL_EXE, reqs, timeout=600)
+    cs = []
+    for q, o in zip(reqs, outs):
+        m = o and re.match(r"text=(\S+) nodes=(\d)", o)
+        if not m:
+            cs.append({"line": "asm -", "tags": [tag, "generator-failed"], "src": f"{q} -> {o}", "want_ok": "generator-failed"})
+            continue
+        h = m.group(1)
+        c = {"line": f"asm {h}", "tags": [tag], "src": bytes.fromhex(h).decode("utf-8", "replace") if h != "-" else ""}
+        if m.group(2) != "1":
+            # the generator does not enforce the one semantic side condition of the family (a CLOSED pushN operand must
+            # fit, else the parser itself rejects it with ImmediateTooLarge): such texts are outside the theorem's
+            # family; they still go through the tie
+            c["tags"] = [tag, "outside-family"]
+        cs.append(c)
+    return cs
